@@ -126,7 +126,7 @@ fn media_hook(gn: &mut Gen, w: &mut World) -> Option<Step> {
     }
     let m = media[gn.rng().below(media.len() as u64) as usize];
     let node = gn.rng().below(w.nodes.len() as u64) as usize;
-    let tamper = if gn.rng().chance(1, 2) { 0 } else { 1 + gn.rng().below(7) as u8 };
+    let tamper = if gn.rng().chance(1, 2) { 0 } else { 1 + gn.rng().below(9) as u8 };
     let seed = gn.rng().next() as u32;
     Some(gn.mk(w, node, 0, Op::MediaDownload { msg: m, tamper, seed }))
 }
@@ -146,7 +146,7 @@ pub fn spec() -> CheckSpec {
     CheckSpec {
         id: "C17",
         level: "exploration",
-        rule: "worlds in which senders encrypt payloads (0 B, 1 B, 31 B, 1 KiB, 70 KB; text/plain, application/pdf, audio/mpeg, video/mp4 and seeded valid PNG / JPEG / GIF / WebP images, which the library validates against the bytes and re-encodes; distinct file names) with EncryptedMediaManager, store the ciphertext in a simulated blob store and announce it with an imeta message; 0..n commits later - with the announcing message processed before or after those commits, after rollbacks, restarts, evictions and joins - every member, ex-member and later joiner downloads and decrypts, with a seeded fault on half of the downloads (nonce bit, file name, MIME type, content hash, scheme version in the reference; bit flip or truncation of the blob); oracle: a member of the sending epoch that holds the announcing message obtains exactly the original bytes at any later epoch, a client that was not a member of that epoch obtains nothing, any tamper yields an error, never different bytes; non-trivial = a decryption attempted at a later epoch than the encryption; distinct = delivery signature. The universal (all positions / all payloads) tamper-evidence and key-separation clauses are statements about a pure function and are only exercised as far as these runs reach (DESIGN.md §9); group images: admins encrypt seeded images (current seed format and the legacy direct-key format) and publish hash / key / nonce with a group-data commit; any client holding the group decrypts the blob named by its OWN stored record - it must obtain the uploader's bytes, and a flipped bit in blob, key or nonce, a truncated blob, or a damaged blob offered without the expected hash must fail",
+        rule: "worlds in which senders encrypt payloads (0 B, 1 B, 31 B, 1 KiB, 70 KB; text/plain, application/pdf, audio/mpeg, video/mp4 and seeded valid PNG / JPEG / GIF / WebP images, which the library validates against the bytes and re-encodes; distinct file names) with EncryptedMediaManager, store the ciphertext in a simulated blob store and announce it with an imeta message; 0..n commits later - with the announcing message processed before or after those commits, after rollbacks, restarts, evictions and joins - every member, ex-member and later joiner downloads and decrypts, with a seeded fault on half of the downloads (nonce bit, file name prefix / letter case / trailing blank, MIME type swapped, content hash, scheme version suffix in the reference; bit flip or truncation of the blob; other spellings of the SAME value - hex case, MIME case, a lengthened nonce field - are deliberately not counted as tampering); oracle: a member of the sending epoch that holds the announcing message obtains exactly the original bytes at any later epoch, a client that was not a member of that epoch obtains nothing, any tamper yields an error, never different bytes; non-trivial = a decryption attempted at a later epoch than the encryption; distinct = delivery signature. The universal (all positions / all payloads) tamper-evidence and key-separation clauses are statements about a pure function and are only exercised as far as these runs reach (DESIGN.md §9); group images: admins encrypt seeded images (current seed format and the legacy direct-key format) and publish hash / key / nonce with a group-data commit; any client holding the group decrypts the blob named by its OWN stored record - it must obtain the uploader's bytes, and a flipped bit in blob, key or nonce, a truncated blob, or a damaged blob offered without the expected hash must fail",
         variants: vec![
             Variant { name: "mem", profile: Profile { backend: BackendMix::Memory, ..base.clone() }, runs_quick: 300, runs_thorough: 15000, oracle: mk, guarded: false, configure_gen: Some(conf), post: None, custom: None },
             Variant { name: "mixed", profile: Profile { backend: BackendMix::Mixed, allow_restart: true, ..base.clone() }, runs_quick: 100, runs_thorough: 5000, oracle: mk, guarded: false, configure_gen: Some(conf), post: None, custom: None },
